@@ -586,18 +586,18 @@ Definition remove_stale_top (d : fs) : fs :=
   | _ => d1
   end.
 
-Lemma invoke_top_leftover : forall w faults fl ohf d junk, w_fixed w = true -> plain d ->
-  invoke w faults fl ohf (set mainfile (File junk) d) = invoke w faults fl ohf d.
+Lemma invoke_top_leftover : forall w faults fl tn ohf d junk, w_fixed w = true -> plain d ->
+  invoke_named w faults fl tn ohf (set mainfile (File junk) d) = invoke_named w faults fl tn ohf d.
 Proof.
-  intros w faults fl ohf d junk Hf Hd. unfold invoke, rs. rewrite Hf.
+  intros w faults fl tn ohf d junk Hf Hd. unfold invoke_named, rs. rewrite Hf.
   rewrite stale_set_main by exact Hd. reflexivity.
 Qed.
 
-Lemma invoke_top_leftover_sub : forall w faults fl ohf d sub junk, w_fixed w = true ->
+Lemma invoke_top_leftover_sub : forall w faults fl tn ohf d sub junk, w_fixed w = true ->
   lookup d magefilesDir = Some (Dir sub) -> plain sub ->
-  invoke w faults fl ohf (set magefilesDir (Dir (set mainfile (File junk) sub)) d) = invoke w faults fl ohf d.
+  invoke_named w faults fl tn ohf (set magefilesDir (Dir (set mainfile (File junk) sub)) d) = invoke_named w faults fl tn ohf d.
 Proof.
-  intros w faults fl ohf d sub junk Hf L Hs. unfold invoke, rs. rewrite Hf.
+  intros w faults fl tn ohf d sub junk Hf L Hs. unfold invoke_named, rs. rewrite Hf.
   rewrite stale_set_other by exact mfd_neq_main.
   rewrite lookup_set_same.
   rewrite (stale_lookup_other d magefilesDir mfd_neq_main). rewrite L.
@@ -611,11 +611,11 @@ Lemma invoke_clean_mf : forall w faults fl b d, w_fixed w = true -> nolink d -> 
   f_keep fl = false -> fst (invoke_dir w faults (with_mfdir fl b) d) = remove_stale d.
 Proof. intros. apply invoke_clean; try assumption. Qed.
 
-Lemma invoke_top_clean : forall w faults fl ohf d, w_fixed w = true -> safe w faults -> f_keep fl = false ->
+Lemma invoke_top_clean : forall w faults fl tn ohf d, w_fixed w = true -> safe w faults -> f_keep fl = false ->
   nolink d -> (forall sub, lookup d magefilesDir = Some (Dir sub) -> nolink sub) ->
-  fst (invoke w faults fl ohf d) = remove_stale_top d.
+  fst (invoke_named w faults fl tn ohf d) = remove_stale_top d.
 Proof.
-  intros w faults fl ohf d Hf W K Hd Hsub. unfold invoke, remove_stale_top, rs. rewrite Hf.
+  intros w faults fl tn ohf d Hf W K Hd Hsub. unfold invoke_named, remove_stale_top, rs. rewrite Hf.
   pose proof (stale_nolink d Hd) as Hd1.
   rewrite (stale_lookup_other d magefilesDir mfd_neq_main) in *.
   destruct (lookup d magefilesDir) as [[b|sub|t]|] eqn:L;
@@ -878,21 +878,48 @@ Lemma p_crash_then_run : forall w faults fl, w_fixed w = true -> forall w1 f1 fl
   invoke_dir_full w faults fl (crash_dir w1 f1 fl1 k d) = invoke_dir_full w faults fl d.
 Proof. intros. apply crash_then_run; assumption. Qed.
 
-Lemma p_leftover_top : forall w faults fl, w_fixed w = true -> forall ohf d junk, plain d ->
-  invoke w faults fl ohf (set mainfile (File junk) d) = invoke w faults fl ohf d.
+Lemma p_leftover_top : forall w faults fl, w_fixed w = true -> forall tn ohf d junk, plain d ->
+  invoke_named w faults fl tn ohf (set mainfile (File junk) d) = invoke_named w faults fl tn ohf d.
 Proof. intros. apply invoke_top_leftover; assumption. Qed.
 
-Lemma p_leftover_sub : forall w faults fl, w_fixed w = true -> forall ohf d sub junk,
+Lemma p_leftover_sub : forall w faults fl, w_fixed w = true -> forall tn ohf d sub junk,
   lookup d magefilesDir = Some (Dir sub) -> plain sub ->
-  invoke w faults fl ohf (set magefilesDir (Dir (set mainfile (File junk) sub)) d) = invoke w faults fl ohf d.
+  invoke_named w faults fl tn ohf (set magefilesDir (Dir (set mainfile (File junk) sub)) d) = invoke_named w faults fl tn ohf d.
 Proof. intros. apply invoke_top_leftover_sub; assumption. Qed.
 
-Lemma p_clean_top : forall w faults fl, w_fixed w = true -> w_cleanup w = true -> forall ohf d, f_keep fl = false ->
+Lemma p_clean_top : forall w faults fl, w_fixed w = true -> w_cleanup w = true -> forall tn ohf d, f_keep fl = false ->
   nolink d -> (forall sub, lookup d magefilesDir = Some (Dir sub) -> nolink sub) ->
-  fst (invoke w faults fl ohf d) = remove_stale_top d.
+  fst (invoke_named w faults fl tn ohf d) = remove_stale_top d.
 Proof. intros. apply invoke_top_clean; try assumption. right. assumption. Qed.
 
 Lemma p_init_only_creates : forall open_fault write_fault tpl partial d,
   (forall n e, lookup d n = Some e -> lookup (fst (init_cmd open_fault write_fault tpl partial d)) n = Some e) /\
   (forall n, n <> initFile -> lookup (fst (init_cmd open_fault write_fault tpl partial d)) n = lookup d n).
 Proof. intros. split; [intros n e; apply init_preserves|intros n; apply init_only_initfile]. Qed.
+
+(* in a directory called magefiles (mage -d magefiles) and in the magefiles/ sub-directory the
+   "files without the mage tag" listing pass does not exist: a fault assigned to it changes nothing *)
+Lemma listnonmage_absent : forall w faults faults' fl d, f_mfdir fl = true ->
+  (forall st, st <> ListNonMage -> faults' st = faults st) ->
+  invoke_dir_full w faults' fl d = invoke_dir_full w faults fl d.
+Proof.
+  intros w faults faults' fl d M H.
+  assert (X : forall st s, exec w faults' fl st s = exec w faults fl st s).
+  { intros st s. destruct st; cbn [exec]; unfold fallible, cleanup;
+      rewrite ?M; try reflexivity;
+      repeat match goal with |- context [faults' ?x] => rewrite (H x) by discriminate end; reflexivity. }
+  assert (R : forall l s, run w faults' fl l s = run w faults fl l s).
+  { induction l as [|st r IH]; intros s; cbn [run]; [reflexivity|]. rewrite X.
+    destruct (exec w faults fl st s); [apply IH|reflexivity]. }
+  unfold invoke_dir_full. rewrite R. reflexivity.
+Qed.
+
+Lemma invoke_is_named : forall w faults fl ohf d, invoke w faults fl ohf d = invoke_named w faults fl false ohf d.
+Proof. reflexivity. Qed.
+
+Lemma invoke_named_top : forall w faults fl tn ohf d, (forall sub, lookup (rs w d) magefilesDir <> Some (Dir sub)) ->
+  invoke_named w faults fl tn ohf d = invoke_dir w faults (with_mfdir fl tn) (rs w d).
+Proof.
+  intros w faults fl tn ohf d H. unfold invoke_named.
+  destruct (lookup (rs w d) magefilesDir) as [[b|sub|t]|] eqn:E; try reflexivity. exfalso. exact (H sub eq_refl).
+Qed.
